@@ -12,4 +12,8 @@ def units(tier):
     for l in [x for x in circuit_labels(tier) if x != 'U3[late-herald]']:
         u.append(dict(kind="xlift", mechanism="xlift bounded (C), exact", name=f"xlift:sampler[{l}]", module="vf.tasks.t_fock", func="unit", args=dict(which="sampler", label=l)))
     u.append(dict(kind="func", mechanism="bounded runtime contract (C), native machine integers", name="bounded:large-occupations", module="vf.tasks.t_fock", func="unit_bigint", args={}))
+    # the distribution a Sampler reports after parameter updates (large, and tiny: relative 4e-6), in-place circuit edits and backend changes is the one
+    # of the current values (= a fresh Sampler's, which the units above compare with the independent reference)
+    u.append(dict(kind="func", mechanism="bounded runtime contract (C)", name="bounded:parameter-update-histories", module="vf.tasks.t_history", func="unit",
+                  args=dict(kind="sampler", only=["param", "param-tiny", "edit-circuit", "backend", "loss"])))
     return u
